@@ -544,7 +544,11 @@ class Worker:
         while True:
             if buffer.full():
                 with buffer._not_full:
-                    buffer._not_full.wait()
+                    # Check again under the lock; otherwise a `get` (and its
+                    # notification) between the check above and this `wait`
+                    # is missed, and nothing may notify again.
+                    if buffer.full():
+                        buffer._not_full.wait()
 
             # Multiple workers in separate processes may be competing
             # to get data out of this `q_in`.
